@@ -216,7 +216,7 @@ def run(ctx):
         pairs += [(n, md[n]['latest_version']) for n in ('cc-pvdz', 'lanl2dz') if n in md]     # free primitives shared with contractions
     store.parallel(ctx, work_store, pairs)
     store.parallel(ctx, work_generated, [ctx.seed * 100019 + i for i in range(ctx.budget(240, 20000))])
-    store.parallel(ctx, work_patho, [ctx.seed * 11 + i for i in range(ctx.budget(30, 600))])
+    store.parallel(ctx, work_patho, [ctx.seed * 11 + i for i in range(ctx.budget(64, 900))])
 
 
 def replay(ctx, rec):
